@@ -4,6 +4,7 @@ import (
 	"encoding/hex"
 	"encoding/json"
 	"github.com/brutella/hc/util"
+	"strings"
 )
 
 // Database stores entities
@@ -93,9 +94,20 @@ func (db *database) entityForKey(key string) (e Entity, err error) {
 		err = json.Unmarshal(b, &e)
 	}
 
+	// A JSON string cannot hold arbitrary bytes (invalid UTF-8 is replaced
+	// when encoding) – the key holds the unaltered name.
+	if name, ok := fromEntityKey(key); ok && err == nil {
+		e.Name = name
+	}
+
 	return
 }
 
 func toEntityKey(s string) string {
 	return hex.EncodeToString([]byte(s)) + ".entity"
+}
+
+func fromEntityKey(key string) (string, bool) {
+	b, err := hex.DecodeString(strings.TrimSuffix(key, ".entity"))
+	return string(b), err == nil && strings.HasSuffix(key, ".entity")
 }
